@@ -25,7 +25,8 @@ RULE = ("seeded pools of 3-8 distinctly named connected motifs (random connected
         "(thorough <= 11), K2..K5, C3..C7, diamond, trees, stars; arbitrary integer labels; names with digits and dashes) "
         "and histories of 10-40 evaluations (motif, focal, operand kind, heterogeneous u) on ONE evaluator that revisit "
         "and interleave motifs; operand kinds float / exact rationals on a 1e6 grid / polynomial symbols; faults: operand "
-        "raising at the k-th arithmetic operation, a vertex without its u value; non-trivial = history has >= 2 "
+        "raising at the k-th arithmetic operation, the motif graph's neighbors() raising at the k-th call (lands inside "
+        "the structural cache filling), a vertex without its u value; non-trivial = history has >= 2 "
         "evaluations of which one revisits a (motif, focal) pair; distinct = distinct execution digests")
 ASSUMPTIONS = ["reference = brute force over all 2^|E| edge subsets, organised as integer counts (pure function of motif and focal)",
                "Exact evaluations establish the polynomial identity with probability >= 1 - deg/1e6 each (Schwartz-Zippel); "
@@ -33,6 +34,17 @@ ASSUMPTIONS = ["reference = brute force over all 2^|E| edge subsets, organised a
                "float evaluations compared to 1e-9 (absolute + relative)"]
 REAL = ["gcmpy.message_passing.equations.automated_equation.AutomatedEquation (shared object, real caches)", "networkx"]
 STUB = ["numeric operands (Exact / Poly / faulting wrappers)", "no RNG is consumed by this code path"]
+
+class FaultyGraph(nx.Graph):
+    """Duck-typed graph operand: neighbors() fails at the k-th call (counter shared through the graph attribute
+    dict, which nx copies by reference into every copy), so a fault can land INSIDE the structural cache filling."""
+
+    def neighbors(self, n):
+        c = self.graph.get("_fault")
+        if c is not None:
+            c.tick()
+        return super().neighbors(n)
+
 
 NAMES = ["3-1", "m-0", "7", "2-clique", "0-0", "12", "a-1-2", "1", "1-2", "c4", "K-5", "0"]
 
@@ -110,8 +122,11 @@ def generate(prng, tier, index):
     if variant == "faults":
         for _ in range(prng.randrange(1, 3)):
             at = prng.randrange(len(evals))
-            if prng.random() < 0.7:
+            r = prng.random()
+            if r < 0.45:
                 sc["faults"].append({"kind": "operand_raise", "eval": at, "at": prng.randrange(0, 40)})
+            elif r < 0.8:
+                sc["faults"].append({"kind": "structure_raise", "eval": at, "at": prng.randrange(0, 25)})
             else:
                 sc["faults"].append({"kind": "missing_attr", "eval": at, "which": prng.randrange(0, 6)})
     return sc
@@ -186,8 +201,13 @@ def execute(sc, ctx):
         if f and f["kind"] == "operand_raise" and ev["kind"] == "exact":
             counter = OpCounter(fail_at=f["at"])
         phi, u = operands(ev, verts, counter)
-        H = nx.Graph(name=m["name"])
-        H.add_edges_from(edges)
+        if f and f["kind"] == "structure_raise":
+            H = FaultyGraph(name=m["name"])
+            H.add_edges_from(edges)
+            H.graph["_fault"] = OpCounter(fail_at=f["at"])
+        else:
+            H = nx.Graph(name=m["name"])
+            H.add_edges_from(edges)
         uu = dict(u)
         dropped = None
         if f and f["kind"] == "missing_attr":
@@ -200,9 +220,11 @@ def execute(sc, ctx):
         tag = f" (evaluation #{k} of motif {m['name']!r} focal {focal}, {ev['kind']} operands" + \
               (", after an injected fault on this evaluator)" if faulted else ")")
         if st == "fault":
-            ctx.fault("operand_raise")
+            ctx.fault(f["kind"] if f else "operand_raise")
             faulted = True
             continue
+        if f and f["kind"] == "structure_raise":
+            H.graph.pop("_fault", None)
         if dropped is not None:
             # the library may raise (KeyError) or not need the value; either way nothing to compare
             if st == "raised":
